@@ -309,6 +309,9 @@ def det_classes():
   out += [("NormalQueueRTL3", lambda: Q.NormalQueueRTL(Bits8, 3)), ("PipeQueueRTL2", lambda: Q.PipeQueueRTL(Bits8, 2)), ("BypassQueueRTL2", lambda: Q.BypassQueueRTL(Bits4, 2)),
           ("StreamNormalQueue2", lambda: SQ.NormalQueueRTL(Bits8, 2)), ("RoundRobinArbiter4", lambda: A.RoundRobinArbiter(4)), ("RoundRobinArbiterEn3", lambda: A.RoundRobinArbiterEn(3)),
           ("RegisterFile", lambda: RegisterFile(Bits8, 4, 2, 1))]
+  out += [("SetParam", lambda: D.SetParam({"add", "sub", "mul", "div", "very_long_operation_name", "shift", "rotate"})),
+          ("FrozenSetParam", lambda: D.SetParam(frozenset(["add", "mul", "xor", "nand", "very_long_operation_name"]))),
+          ("FnListParam", lambda: D.FnListParam([D.double, D.triple])), ("FnTupleDictParam", lambda: D.FnListParam((D.double,), {"f": D.triple}))]
   out += [("FnParam", lambda: D.FnParam(D.double)), ("ObjParam", lambda: D.ObjParam(D.PlainCfg(3))), ("ConstStructs", D.ConstStructs), ("ConstLists", D.ConstLists)]
   cat = D.catalogue()
   pick = [0, 1, 4, 5, 10, 14, 20, 23, 25, 27, 31, 35, 37]
